@@ -15,7 +15,7 @@
    noise is non-degenerate; point filter: weights non-zero).
    What is NOT covered here: f32 rounding (observed by the correspondence, tools/props/c07.py). *)
 From Coq Require Import List Arith Bool ZArith QArith Qreals Reals Permutation.
-From Similari Require Import Base.Num Model.Kalman Proofs.KalmanProofs.
+From Similari Require Import Base.Num Model.Kalman Proofs.KalmanProofs Proofs.KalmanTransfer Proofs.KalmanExact.
 From SimilariGen Require Import Consts.
 Import ListNotations.
 
@@ -44,6 +44,12 @@ Section Generic.
       0 < mgetR P k k /\ 0 < mgetR P (n + k) (n + k)
       /\ 0 < mgetR P k k * mgetR P (n + k) (n + k) - mgetR P k (n + k) * mgetR P k (n + k).
   Proof. exact (cov_spd_blocks_lemma F). Qed.
+
+  (* ... and as a whole: x^T P x > 0 for every vector x that is not identically zero
+     ([quad F P x] = sum_(i<2n) sum_(j<2n) x_i P_ij x_j). *)
+  Theorem cov_positive_definite : forall z ops, valid_history F z ops ->
+      forall x : nat -> R, (exists i, (i < N)%nat /\ x i <> 0) -> 0 < quad F (cov (reach F z ops)) x.
+  Proof. exact (cov_positive_definite_lemma F). Qed.
 
   (* One update of a reachable state: the code (forward substitution on the lower triangle of S) computes the
      textbook update  K = P H^T S^-1, mean + K y, P - K S K^T  for EVERY true (right) inverse Si of S. *)
@@ -100,6 +106,57 @@ Proof. exact box_valid. Qed.
 Theorem point_side_condition : forall (wp wv : R) z ops, (wp <> 0)%R -> (wv <> 0)%R ->
     valid_history (point_filter Rops wp wv) z ops.
 Proof. exact point_valid. Qed.
+
+(* The theorems above are about the real-number instance of the model.  The SAME Gallina definitions over any
+   arithmetic with an exact interpretation phi into R (homomorphic for 0, 1, +, -, *, division by non-zero, of_Q)
+   compute the phi-preimage of the real run along every valid history ... *)
+Theorem box_run_transfer_exact :
+  forall (Ops : NumOps) (phi : T Ops -> R),
+    phi (zero Ops) = 0%R -> phi (one Ops) = 1%R ->
+    (forall a b, phi (add Ops a b) = (phi a + phi b)%R) -> (forall a b, phi (sub Ops a b) = (phi a - phi b)%R) ->
+    (forall a b, phi (mul Ops a b) = (phi a * phi b)%R) ->
+    (forall a b, phi b <> 0%R -> phi (div Ops a b) = (phi a / phi b)%R) ->
+    (forall q, phi (of_Q Ops q) = Q2R q) ->
+    forall (wp wv : T Ops) z ops,
+      valid_history (box_filter Rops (phi wp) (phi wv)) (vphi Ops phi z) (map (op_phi Ops phi) ops) ->
+      sphi Ops phi (g_run Ops (box_filter Ops wp wv) (g_initiate Ops (box_filter Ops wp wv) z) ops)
+      = reach (box_filter Rops (phi wp) (phi wv)) (vphi Ops phi z) (map (op_phi Ops phi) ops).
+Proof. exact box_run_transfer. Qed.
+
+Theorem point_run_transfer_exact :
+  forall (Ops : NumOps) (phi : T Ops -> R),
+    phi (zero Ops) = 0%R -> phi (one Ops) = 1%R ->
+    (forall a b, phi (add Ops a b) = (phi a + phi b)%R) -> (forall a b, phi (sub Ops a b) = (phi a - phi b)%R) ->
+    (forall a b, phi (mul Ops a b) = (phi a * phi b)%R) ->
+    (forall a b, phi b <> 0%R -> phi (div Ops a b) = (phi a / phi b)%R) ->
+    (forall q, phi (of_Q Ops q) = Q2R q) ->
+    forall (wp wv : T Ops) z ops,
+      valid_history (point_filter Rops (phi wp) (phi wv)) (vphi Ops phi z) (map (op_phi Ops phi) ops) ->
+      sphi Ops phi (g_run Ops (point_filter Ops wp wv) (g_initiate Ops (point_filter Ops wp wv) z) ops)
+      = reach (point_filter Rops (phi wp) (phi wv)) (vphi Ops phi z) (map (op_phi Ops phi) ops).
+Proof. exact point_run_transfer. Qed.
+
+(* ... in particular the exact-rational instance [Qops] that the correspondence executes: on the rational
+   covariance of the box filter itself, block diagonal, symmetric, positive definite blocks (Qeq / Qlt). *)
+Theorem q_box_cov_block_diagonal : forall (wp wv : Q) z ops,
+    valid_history (box_filter Rops (Q2R wp) (Q2R wv)) (q_vec_R z) (q_ops_R ops) ->
+    forall i j, (i < 10)%nat -> (j < 10)%nat -> i <> j -> j <> (5 + i)%nat -> i <> (5 + j)%nat ->
+    (mget (cov (q_reach_box wp wv z ops)) i j == 0)%Q.
+Proof. exact q_box_block_diagonal. Qed.
+
+Theorem q_box_cov_symmetric : forall (wp wv : Q) z ops,
+    valid_history (box_filter Rops (Q2R wp) (Q2R wv)) (q_vec_R z) (q_ops_R ops) ->
+    forall i j, (i < 10)%nat -> (j < 10)%nat ->
+    (mget (cov (q_reach_box wp wv z ops)) i j == mget (cov (q_reach_box wp wv z ops)) j i)%Q.
+Proof. exact q_box_symmetric. Qed.
+
+Theorem q_box_cov_spd : forall (wp wv : Q) z ops,
+    valid_history (box_filter Rops (Q2R wp) (Q2R wv)) (q_vec_R z) (q_ops_R ops) ->
+    forall k, (k < 5)%nat ->
+    let P := cov (q_reach_box wp wv z ops) in
+    (0 < mget P k k /\ 0 < mget P (5 + k) (5 + k)
+     /\ 0 < mget P k k * mget P (5 + k) (5 + k) - mget P k (5 + k) * mget P k (5 + k))%Q.
+Proof. exact q_box_spd. Qed.
 
 (* The vector filter treats its points independently (any arithmetic): point k of a vector history is the
    point filter run on the k-th components; the run commutes with every re-indexing of the points, and a
